@@ -108,9 +108,10 @@ func init() {
 	defScenario("carry6", "rot", 6, "obs", 1, "", true, "bc:1 bc:2 bc:3 bc:4 bc:5 bc:6")
 	defScenario("batch5", "rot", 5, "obs", 2, "", true, "b:1,2 b:3,4 b:2,3 b:4,5 c:5")
 	defScenario("conf4-7", "rot", 4, "obs", 2, "", true, "b:1 b:2 c:2 b:3 c:3 b:4 c:4")
-	defScenario("conf4-all", "rot", 4, "obs", 2, "nodup", true, "b:1 c:1 b:2 c:2 b:3 c:3 b:4 c:4")
+	defScenario("conf4-all", "rot", 4, "obs", 2, "", true, "b:1 c:1 b:2 c:2 b:3 c:3 b:4 c:4")
 	defScenario("conf5", "rot", 5, "obs", 2, "", true, "b:1 b:2 b:3 b:4 b:5 c:3 c:5")
 	defScenario("conf5-all", "rot", 5, "obs", 1, "nodup", true, "b:1 c:1 b:2 c:2 b:3 c:3 b:4 c:4 b:5 c:5")
+	defScenario("conf6", "rot", 6, "obs", 2, "", true, "b:1 b:2 b:3 b:4 b:5 b:6 c:3 c:6")
 	defScenario("deputy5", "alt", 5, "d2", 2, "", true, "b:1 b:2 b:3 b:4 b:5 c:3 c:5")
 	defScenario("race5", "rot", 5, "obs", 2, "race", true, "b:1 b:2 b:3 b:4 b:5 c:3 c:5")
 	defScenario("stable5", "rot", 5, "obs", 1, "stable", true, "b:1 b:2 b:3 b:4 b:5 c:3 c:5")
@@ -320,8 +321,23 @@ func (w *bworld) sendConfirm(i int, p *network.VerifC15Peer) {
 	} else {
 		hit("deliver/confirm-cached-before-block")
 	}
+	// the handler starts its InsertConfirms goroutine (if it does) before it returns: what is pending
+	// before the call gets its label first, what appears during the call is this confirmation's
+	w.labelPending(0)
 	if err := network.VerifC15Work(w.pm, &p2p.Msg{Code: p2p.ConfirmMsg, Content: buf}, p); err != nil {
 		panic(fmt.Sprintf("harness: ConfirmMsg refused: %v", err))
+	}
+	w.labelPending(h)
+}
+
+// labelPending gives every task that has no label yet its label.
+func (w *bworld) labelPending(confirmHeight int) {
+	sites := vtask.Pending()
+	if len(sites) < len(w.labels) {
+		panic("harness: pending task list shrank")
+	}
+	for len(w.labels) < len(sites) {
+		w.labels = append(w.labels, w.labelFor(sites[len(w.labels)], confirmHeight))
 	}
 }
 
@@ -509,13 +525,7 @@ func (w *bworld) runTask(i int) {
 // path (and, outside the stable* scenarios, the stable notification chain) and leaves the others pending.
 func (w *bworld) settle(confirmHeight int) {
 	for {
-		sites := vtask.Pending()
-		if len(sites) < len(w.labels) {
-			panic("harness: pending task list shrank")
-		}
-		for len(w.labels) < len(sites) {
-			w.labels = append(w.labels, w.labelFor(sites[len(w.labels)], confirmHeight))
-		}
+		w.labelPending(confirmHeight)
 		ran := false
 		for i, l := range w.labels {
 			if w.isAuto(l) {
@@ -841,8 +851,10 @@ func (w *bworld) apply(e string) (nondet string) {
 		w.nested, w.nestedHash = e[i+1:], w.sg.hash[w.sc.msgs[j].confirm]
 		w.deliver(j, -1)
 		if w.nested != "" {
+			// the handler did not ask the chain for this block (a changed tree may decide differently):
+			// nothing ran in between, this was the plain delivery of message j
 			w.nested = ""
-			return "the handler did not look at the chain: " + e
+			hit("inject/handler-did-not-look-at-the-chain")
 		}
 		return ""
 	}
